@@ -133,9 +133,10 @@ func (wg *WaitGroup) Wait(ctx context.Context) {
 	// context has been canceled, to avoid having many
 	// theads/waiters blocking.
 	verifAt(ctx, "helper.spawn", wg.cond, "wg")
+	cond := wg.cond // read under the mutex: the helper's hook below runs before it takes the lock
 	go func() {
 		<-ctx.Done()
-		verifAt(ctx, "helper.gate", wg.cond)
+		verifAt(ctx, "helper.gate", cond)
 		defer with(lock(&wg.mu))
 		wg.cond.Broadcast()
 		verifAt(ctx, "helper.done", wg.cond)
